@@ -108,6 +108,16 @@ Fixpoint split_on_acc (sep : N) (s : bytes) (cur : bytes) : list bytes :=
 
 Definition split_on (sep : N) (s : bytes) : list bytes := split_on_acc sep s [].
 
+(* the same function in linear time ([rev] of the standard library is quadratic, which dominates the run time
+   of the line parser on case lines of a few kilobytes); Proofs/CommonFacts.v: split_fast = split_on *)
+Fixpoint split_fast_acc (sep : N) (s : bytes) (cur : bytes) : list bytes :=
+  match s with
+  | [] => [rev_append cur []]
+  | c :: s' => if c =? sep then rev_append cur [] :: split_fast_acc sep s' [] else split_fast_acc sep s' (c :: cur)
+  end.
+
+Definition split_fast (sep : N) (s : bytes) : list bytes := split_fast_acc sep s [].
+
 Fixpoint all_some {A} (l : list (option A)) : option (list A) :=
   match l with
   | [] => Some []
@@ -126,7 +136,7 @@ Fixpoint all_some {A} (l : list (option A)) : option (list A) :=
 Definition parse_list {A} (f : bytes -> option A) (s : bytes) : option (list A) :=
   match s with
   | [45] => Some []
-  | _ => all_some (map f (split_on 44 s))
+  | _ => all_some (map f (split_fast 44 s))
   end.
 
 Record case := { c_kind : N; c_sargs : list bytes; c_zargs : list Z }.
@@ -140,7 +150,7 @@ Definition parse_case (kind sargs zargs : bytes) : option case :=
 Definition bad_case_output : bytes := [98;97;100;99;97;115;101]. (* "badcase" *)
 
 Definition run_line (run_case : case -> bytes) (line : bytes) : bytes :=
-  match split_on 124 line with
+  match split_fast 124 line with
   | k :: ss :: zs :: _ =>
     match parse_case k ss zs with
     | Some c => run_case c
